@@ -215,7 +215,7 @@ def get_header(v):
     X0 = None if X is None else list(X)
     resp = mk_resp(v, hdrs, X)
     dk = v.choose(3, 'default')
-    default = [None, None, None][dk] if dk < 2 else v.str('default')
+    default = v.str('default') if dk == 2 else None  # 0: argument omitted, 1: None, 2: a str
     out = v.call(resp, name) if dk == 0 else v.call(resp, name, default)
     H1 = map_of(v, resp)
     v.check('reading-leaves-the-headers-untouched', And(H1.eq(H), untouched(v, resp, X, X0, None)))
@@ -448,6 +448,49 @@ def set_media_type(v):
     v.check('default-content-type-only-when-absent-never-overrides', H1.eq(E))
 
 
+@harness(PROP, RESP + '.__init__', setup=_setup, inline=['falcon.util.structures:*'])
+def response_starts_empty(v):
+    """Base case of the induction over histories: a new response has no plain header, no raw line, no cookie jar."""
+    opts = Options(True)
+    resp = v.obj(RESP)
+    out = v.call(resp, opts)
+    v.check('no-exception', out.exc is None)
+    if out.exc is not None:
+        return
+    h = v.get(resp, '_headers')
+    v.check('no-plain-headers', isinstance(h, dict) and len(h) == 0)
+    v.check('no-raw-lines-and-no-cookie-jar', v.get(resp, '_extra_headers') is None and v.get(resp, '_cookies') is None)
+    v.check('options-kept', v.get(resp, 'options') is opts)
+    v.cover('constructed')
+
+
+@harness(PROP, RESP + '.get_header', name='read_back_in_any_case', setup=_setup,
+         inline=[RESP + '.set_header', RESP + '.append_header', RESP + '.delete_header'])
+def read_back_in_any_case(v):
+    """A two-step history on the real methods: write under one spelling, read under another spelling of the same name."""
+    n1, n2 = v.str('written_as'), v.str('read_as')
+    if v.concrete:
+        v.assume(n1.lower() == n2.lower() and n1.lower() != SC)
+    else:
+        v.assume(And(lower(n1) == lower(n2), lower(n1) != SC))
+    hdrs, H = header_map(v, [lower(n1)])
+    resp = mk_resp(v, hdrs)
+    val = v.str('value')
+    op = v.choose(3, 'write')
+    w = v.call(resp, n1, val, target=RESP + ['.set_header', '.append_header'][op]) if op < 2 else v.call(resp, n1, target=RESP + '.delete_header')
+    r = v.call(resp, n2)
+    v.check('no-exception', w.exc is None and r.exc is None)
+    if w.exc is not None or r.exc is not None:
+        return
+    if op == 0:
+        v.check('set-then-get-in-another-case-returns-the-value', r.value == val)
+    elif op == 1:
+        v.check('append-then-get-in-another-case-returns-the-joined-value', r.value == ((H.val(lower(n1)) + ', ' + val) if H.has(lower(n1)) else val))
+    else:
+        v.check('delete-then-get-in-another-case-returns-none', r.value is None)
+    v.cover('read-back')
+
+
 # ---------------------------------------------------------------------------
 # typed header properties: the factory, then every instantiation in response.py
 
@@ -645,6 +688,11 @@ TYPED = {
     'viewable_as': 'content-disposition', 'etag': 'etag', 'expires': 'expires', 'last_modified': 'last-modified',
     'location': 'location', 'retry_after': 'retry-after', 'vary': 'vary', 'accept_ranges': 'accept-ranges',
 }
+TRANSFORM_SOURCE = {
+    'cache_control': [HELP + ':_format_header_value_list'], 'vary': [HELP + ':_format_header_value_list'], 'content_range': [HELP + ':_format_range'],
+    'downloadable_as': [HELP + ':_format_content_disposition'], 'viewable_as': [HELP + ':_format_content_disposition'], 'etag': [HELP + ':_format_etag_header'],
+    'expires': ['falcon.util.misc:dt_to_http'], 'last_modified': ['falcon.util.misc:dt_to_http'],
+}
 SHAPES = {'cache_control': 4, 'vary': 4, 'content_length': 2, 'retry_after': 2, 'content_range': 3}
 
 
@@ -724,6 +772,8 @@ def _typed_property(v):
     key = TYPED[attr]
     if not v.concrete:
         v.closure(HELP + ':_header_property')  # evidence: the source span the accessors come from
+        for dotted in TRANSFORM_SOURCE.get(attr, ()):
+            v.closure(dotted)
     raw = v.real(RESP).__dict__.get(attr)
     v.check('is-a-property-made-by-the-header-property-factory',
             isinstance(raw, property) and all(getattr(f, '__module__', None) == HELP and '_header_property.<locals>' in getattr(f, '__qualname__', '')
@@ -1254,19 +1304,21 @@ def _set_cookie(v):
     a = cookie_inputs(v)
     default_secure = bool(v.choose(2, 'secure_cookies_by_default')) if a['secure'] is None else True
     jk = pick(v, 'jar', 3)
-    jar, before = prior_jar(v, jk, name)
     # whether the jar accepts the name is decided by the stdlib's legal-key set (http.cookies._is_legal_key)
     reject = bool(jk != 2 and pick(v, 'jar-rejects-the-name', 2))
     if v.concrete:
         from http.cookies import _is_legal_key
 
-        if name.isascii():
+        if name.isascii() or jk == 2:
             v.assume(reject == (not _is_legal_key(name)))
-    else:
-        if isinstance(name, SStr):
-            v.assume(Implies(in_range(name, 127), Iff(reject, Not(mk_bool(z3.InRe(name.t, _legal_key_re()))))))
-        if jar is not None:
-            jar.reject_next_key = reject
+    elif isinstance(name, SStr):
+        legal = mk_bool(z3.InRe(name.t, _legal_key_re()))
+        v.assume(Implies(in_range(name, 127), Iff(reject, Not(legal))))
+        if jk == 2:
+            v.assume(legal)
+    jar, before = prior_jar(v, jk, name)
+    if jar is not None and not v.concrete:
+        jar.reject_next_key = reject
     other = v.str('other_key')
     hdrs, H = header_map(v, [other])
     X = extra_lines(v)
@@ -1383,7 +1435,6 @@ harness(PROP, SC_TARGET, name='set_cookie[jar-states]', setup=_cookie_setup,
 def unset_cookie(v):
     name = v.str('name')
     jk = v.choose(3, 'jar')
-    jar, before = prior_jar(v, jk, name)
     if v.concrete:
         from http.cookies import _is_legal_key
 
@@ -1391,10 +1442,12 @@ def unset_cookie(v):
     else:
         v.assume(mk_bool(z3.InRe(name.t, _legal_key_re())))  # a name the jar accepts (see ASSUMPTIONS)
         v.ctx.ghost['v'] = v
+    jar, before = prior_jar(v, jk, name)
     kw = {}
     sk = v.choose(2, 'samesite?')
     if sk:
         kw['samesite'] = v.str('samesite')
+        v.assume(Len(kw['samesite']) > 0)
     for k in ('domain', 'path'):
         if v.choose(2, k + '?'):
             kw[k] = v.str(k)
@@ -1444,7 +1497,7 @@ def _append_link(v):
     rk = pick(v, 'rel', 3)
     if rk == 0:
         rel = v.str('rel')
-        v.assume(Not(rel.contains('//')))  # a registered relation type; extension relation types (URIs) are the concrete variants
+        v.assume(Not(rel.contains('//') if isinstance(rel, SStr) else ('//' in rel)))  # a registered relation type; extension relation types (URIs) are the concrete variants
         want_rel = rel
     else:
         rel = REL_CANARIES[rk - 1]
@@ -1606,4 +1659,56 @@ HARMLESS = [
     # _wsgi_headers: setdefault-style rewrite of the default content-type
     ('falcon/response.py', "        if media_type is not None and 'content-type' not in headers:\n            headers['content-type'] = media_type\n",
      "        if media_type is not None:\n            if 'content-type' not in headers:\n                headers['content-type'] = media_type\n"),
+]
+
+ASSUMPTIONS = [
+    'str.lower is an uninterpreted total function str -> str shared by the program and the specification; the only fact assumed is idempotence '
+    '(lower(lower(s)) == lower(s)), used for "keys stay lower-case"; for the concrete sample names the native value is linked to it by two evaluated facts',
+    'class invariant of Response assumed in every pre-state and re-proved by every mutator: "set-cookie" is not a key of _headers, every key of _headers is '
+    'lower-case, every raw line of _extra_headers is named "set-cookie"; base case Response.__init__ (harness response_starts_empty)',
+    'header values are str (or int where the API documents it); other objects go through str() as the executor models it (str -> itself, int -> decimal digits)',
+    'uri.encode_check_escaped / uri.encode_value_check_escaped / uri.encode_value and misc.secure_filename are opaque total functions str -> str '
+    '(contract of C10: the output is ASCII and decodes back to the input); proved here: the encoder IS applied to target, anchor, title_star text, extension '
+    'relation types, Location, Content-Location and the filename* part on every path, and nothing else is stored',
+    'datetime: only tzinfo / strftime(fmt) / astimezone(tz) are used; strftime returns some non-empty str (the Expires / Last-Modified / cookie expires value IS '
+    'that str, produced with the format "%a, %d %b %Y %H:%M:%S GMT"); that strftime renders the instant correctly is the stdlib contract',
+    'http.cookies (stdlib, not proved): SimpleCookie()[name] = value creates a Morsel or re-uses the existing one of that name (its attributes stay), raises '
+    'CookieError exactly for names outside http.cookies._LegalChars; Morsel[attr] = x stores x under the lower-cased attribute; values() yields the morsels in '
+    'insertion order; OutputString() renders one morsel as some str (ASCII for the ASGI emission harnesses)',
+    'three evaluated facts of str.capitalize: capitalize("lax") == "Lax", ("strict") == "Strict", ("none") == "None"',
+    'str.encode("ascii" | "latin-1"): same code points as bytes, UnicodeEncodeError exactly when a code point is outside the range',
+    'ASGI: appended raw Set-Cookie lines and rendered cookies are ASCII (a raw line with a latin-1 character makes _asgi_headers raise UnicodeEncodeError '
+    'although the WSGI list accepts it and plain headers accept latin-1: not covered by the statement, see NOT_DECIDED)',
+    'etag setter: the value is a non-empty str (resp.etag = "" raises IndexError in _format_etag_header)',
+    'unset_cookie: the name is one the jar accepts (a CookieError for an illegal name is not translated by unset_cookie) and samesite, when given, is non-empty',
+    'set_headers: the iterable has 0..3 pairs (CONCRETE lengths, symbolic names and values; mapping keys pairwise distinct); no loop invariant for arbitrary length',
+]
+NOT_DECIDED = [
+    'set_headers for iterables longer than 3 pairs (the loop is unrolled for lengths 0..3; the body is the same three statements per pair)',
+    'the cross product of ALL set_cookie attribute arguments is explored for one concrete legal name/value ("sid", "abc123"); arbitrary names and values '
+    '(non-ASCII -> KeyError/ValueError, names the jar rejects -> KeyError, jar already holding cookies) are explored in the variants jar-states, '
+    'samesite-spellings and max-age-coercion where fewer attributes vary at a time',
+    'a cookie echoed back in a Cookie header is read by the request API as the same name and value: request side (_parse_cookie_header, C09) and the rendering '
+    'of Morsel.OutputString are stdlib / other properties; proved here is which name, value and attributes are written into the jar',
+    'URI-bearing helpers: "pure ASCII and decodes back" is the contract of the encoders (C10); title, type_hint, hreflang, rel without "//" and link_extension '
+    'are emitted as given (documented: use title_star for non-ASCII titles)',
+    'append_link with an extension relation type given as an arbitrary symbolic string (rel containing "//"): two concrete samples instead '
+    '(str.split on a symbolic string has no model here)',
+    'set_cookie is not atomic: when same_site is invalid the ValueError is raised after the cookie and its other attributes were already written to the jar '
+    '(the statement does not speak about the jar after a failed call)',
+    'fdel of a typed property whose header is absent raises KeyError (not AttributeError): only "the map is unchanged" is stated for that case',
+    '_asgi_headers over an arbitrary map uses the callee contract of _encode_items_to_latin1 (proved separately for maps with 0..2 concrete keys; '
+    'end to end in asgi_headers_small); the Cython twin falcon/cyutil/misc.pyx is out of reach',
+    'order of the plain headers in the emitted list (dict order) is not specified by the statement; stated: each key exactly once, before raw lines, before cookies',
+]
+TRUSTED = [
+    'stub cookie jar (classes Jar, Morsel in contracts/C15_headers.py) substituted for http.cookies.SimpleCookie / Morsel in symbolic runs: records '
+    'jar[name] = value and jar[name][attr] = x; replays use the real stdlib classes',
+    'stubs GhostDT (datetime), Transform (arbitrary transform callable), Options (resp.options), Prop (what property(...) returns), Latin1Items / callee contract '
+    'of _encode_items_to_latin1, codec_model (ascii / latin-1 strict) in contracts/C15_headers.py',
+    'opaque encoders are substituted by uninterpreted functions through Registry.add_model on the real function objects (falcon.util.uri.encode_check_escaped, '
+    'encode_value_check_escaped, encode_value) and a call-site stub for falcon.util.misc.secure_filename',
+    'pyvc.core.SegList / SDictItems: list(d.items()) of a symbolic dict is kept as a concatenation of segments (dict semantics: each key exactly once)',
+    'typed properties are reached through the executor\'s attribute lookup on the real class object: property -> nested fget/fset/fdel located in the current '
+    'source of _header_property by name and first line, free variables (normalized_name, transform) taken from the real closure cells',
 ]
